@@ -12,13 +12,37 @@ import (
 	"github.com/btcsuite/btcd/wire/v2"
 )
 
+// vpGenesisNonce: natively searched so that the genesis hash has (or has
+// not) the all-zero index prefix the run asks for (prepareGenesis).
+var vpGenesisNonce uint32 = 2
+
 func vpGenesisHeader() wire.BlockHeader {
 	return wire.BlockHeader{
 		Version:   1,
 		Timestamp: time.Unix(1296688602, 0),
 		Bits:      0x207fffff,
-		Nonce:     2,
+		Nonce:     vpGenesisNonce,
 	}
+}
+
+// prepareGenesis admits the genesis hash - the first hash in play - before
+// any store is opened, so that whether its index prefix is 0x0000 is the
+// run's explicit input (zeroFirst) rather than left to the hash model.
+func (w *vpWorld) prepareGenesis() {
+	w.zeroAsked = true
+	vpGenesisNonce = 2
+	if !vpSymbolic() {
+		for n := uint32(0); n < 1<<24; n++ {
+			vpGenesisNonce = n
+			g := vpGenesisHeader()
+			hh := g.BlockHash()
+			if (hh[0] == 0 && hh[1] == 0) == w.zeroFirst {
+				break
+			}
+		}
+	}
+	g := vpGenesisHeader()
+	w.admit(g.BlockHash())
 }
 
 func vpParams() *chaincfg.Params {
@@ -37,6 +61,10 @@ type vpWorld struct {
 	hashes     []chainhash.Hash
 	samePrefix bool
 	noPrefix   int // leading entries exempt from the prefix regime (the zero hash)
+	// zeroAsked/zeroFirst: whether the first hash in play has the index prefix
+	// 0x0000 is an input of its own (so that a native replay can search for
+	// a nonce with that outcome)
+	zeroAsked, zeroFirst bool
 }
 
 // admitValue: a digest that is never used as an index key (a filter
@@ -73,6 +101,9 @@ func (w *vpWorld) admit(h chainhash.Hash) {
 			ok = vpAnd(ok, vpNot(same))
 		}
 	}
+	if w.zeroAsked && len(w.hashes) == w.noPrefix {
+		ok = vpAnd(ok, vpAnd(h[0] == 0, h[1] == 0) == w.zeroFirst)
+	}
 	vpAssume(ok)
 	w.hashes = append(w.hashes, h)
 }
@@ -103,6 +134,10 @@ func vpNewHeader(prev chainhash.Hash) wire.BlockHeader {
 				if i >= w.noPrefix && (hh[0] == o[0] && hh[1] == o[1]) != w.samePrefix {
 					ok = false
 				}
+			}
+			first := len(w.hashes) == w.noPrefix || len(w.hashes) == 0
+			if w.zeroAsked && first && (hh[0] == 0 && hh[1] == 0) != w.zeroFirst {
+				ok = false
 			}
 			if ok {
 				break
@@ -232,14 +267,17 @@ func vpOpenBlockStore(db *vpDB, params *chaincfg.Params) *blockHeaderStore {
 func VerifH_C07_blockOps() {
 	vpResetEnv()
 	db := vpReadyDB()
+	w := &vpWorld{samePrefix: vpBool("samePrefix"), zeroFirst: vpBool("firstPrefixZero")}
+	if w.zeroFirst {
+		vpReach("a-hash-with-the-all-zero-index-prefix")
+	}
+	w.prepareGenesis()
 	params := vpParams()
-	w := &vpWorld{samePrefix: vpBool("samePrefix")}
 	st := vpOpenBlockStore(db, params)
 	if st == nil {
 		return
 	}
 	model := []wire.BlockHeader{vpGenesisHeader()}
-	w.admit(model[0].BlockHash())
 	var removed []chainhash.Hash
 	vpCheckBlockStore(st, model, removed)
 
